@@ -28,7 +28,8 @@ type HookDef struct {
 	Weight int      `json:"weight"`
 	Pols   []string `json:"pols"`
 	File   string   `json:"file"` // template file name (hooks are pre-ordered by kind, then by path)
-	Sp     bool     `json:"sp"`   // write the annotation lists with a blank after each comma ("a, b")
+	Sp     bool     `json:"sp"`
+	Keep   bool     `json:"keep"` // the hook object also carries helm.sh/resource-policy: keep   // write the annotation lists with a blank after each comma ("a, b")
 }
 
 type ChartDef struct {
@@ -154,6 +155,9 @@ func hookTemplate(id string, h HookDef) string {
 	if len(h.Pols) > 0 {
 		fmt.Fprintf(&sb, "    \"helm.sh/hook-delete-policy\": %s\n", strings.Join(h.Pols, sep))
 	}
+	if h.Keep {
+		sb.WriteString("    helm.sh/resource-policy: keep\n")
+	}
 	if h.Kind == "Job" {
 		sb.WriteString("spec:\n  template:\n    spec:\n      restartPolicy: Never\n      containers:\n      - name: c\n        image: busybox\n")
 	} else {
@@ -165,7 +169,8 @@ func hookTemplate(id string, h HookDef) string {
 // BuildChart turns a descriptor into a real chart through the real loader.
 func BuildChart(name string, d ChartDef) (*chart.Chart, error) {
 	files := []*loader.BufferedFile{
-		{Name: "Chart.yaml", Data: []byte(fmt.Sprintf("apiVersion: v2\nname: %s\nversion: 1.0.0\n", name))},
+		{Name: "Chart.yaml", Data: []byte(fmt.Sprintf("apiVersion: v2\nname: %s\nversion: 1.0.0\n%s", name,
+			map[bool]string{true: "kubeVersion: \">=1.0.0-0\"\n", false: ""}[d.Lookup]))}, // (a constraint that any version meets)
 		{Name: "values.yaml", Data: []byte("{}\n")},
 	}
 	ids := make([]string, 0)
